@@ -107,7 +107,7 @@ CHECKS = {
    "DESIGN.md section 5 C12"),
  "C13": (ENGINE_A, "model_checking",
    "stateless model checking of the real code: exhaustive DFS over all interleavings of 2-3 nodes' shard-metadata updates/creations at object-store-request granularity with state caching; plus exhaustive update histories of the router cache",
-   "Every interleaving of 1-2 update_shard_metadata calls per node (expected generation equal, stale, ahead; shard absent or at generation 2) on the object-store client (request granularity) and the in-memory client (call granularity), hand-written programs plus the generated family of every unordered pair (thorough: also triple) of client programs of 1..=2 (3) updates with expected generations g0-1 ..= g0+2 from "absent" and from generation 2; oracle: one winner per base generation, generations form the chain g0+1.., every version ever written carries the next generation, stored content belongs to the last winner; ShardRouter: all update sequences up to depth 5/7 never lower the cached generation.",
+   "Every interleaving of 1-2 update_shard_metadata calls per node (expected generation equal, stale, ahead; shard absent or at generation 2) on the object-store client (request granularity) and the in-memory client (call granularity), hand-written programs plus the generated family of every unordered pair (thorough: also triple) of client programs of 1..=2 (3) updates with expected generations g0-1 ..= g0+2 from an absent shard and from generation 2; oracle: one winner per base generation, generations form the chain g0+1.., every version ever written carries the next generation, stored content belongs to the last winner; ShardRouter: all update sequences up to depth 5/7 never lower the cached generation.",
    "InMemory conditional PUT is atomic; the in-memory client's synchronous check-then-insert window is not a scheduling point of a single-threaded scheduler (stated in DESIGN.md)",
    "DESIGN.md section 5 C13"),
 }
